@@ -95,7 +95,7 @@ def gen_case(rng, idx):
                 if rng.random() < 0.7:
                     row[t] = row[t - 1]
     return {"idx": idx, "swbs": swbs, "ends": [list(e) for e in ends], "status": status, "n": n, "shape": shape,
-            "api": str(rng.choice(["all", "each"]))}
+            "api": str(rng.choice(["all", "each"])), "dtype": str(rng.choice(["bool", "int", "float"], p=[0.5, 0.25, 0.25]))}
 
 
 def run_case(ctx, case, model=True):
@@ -113,11 +113,13 @@ def run_case(ctx, case, model=True):
         ctx.fail("predicate", tag, f"constructor (all breakers closed) raised {type(e).__name__}: {e}", where)
         return False
     if ends:
+        dt = {"bool": bool, "int": int, "float": float}[case.get("dtype", "bool")]
+        ctx.count("status_dtype", case.get("dtype", "bool"))
         try:
             if case["api"] == "all":
-                sys_.set_bus_tie_status_all(np.array(status, dtype=bool).T.reshape(n, len(ends)))
+                sys_.set_bus_tie_status_all(np.array(status, dtype=dt).T.reshape(n, len(ends)))
             else:
-                sys_.set_bus_tie_status([(i + 1, np.array(row, dtype=bool)) for i, row in enumerate(status)])
+                sys_.set_bus_tie_status([(i + 1, np.array(row, dtype=dt)) for i, row in enumerate(status)])
         except Exception as e:
             ctx.fail("predicate", "grouping-raises-" + core.error_class(e), f"set_bus_tie_status raised {type(e).__name__}: {e}", where)
             return False
